@@ -3,6 +3,7 @@ package main
 // Translation of contract expressions into SMT terms, in a symbolic state.
 
 import (
+	"strconv"
 	"fmt"
 	"go/constant"
 	"go/types"
@@ -820,6 +821,26 @@ func (e *Env) call(n ECall) TVal {
 			return r
 		}
 		return e.errf("local needs an identifier")
+	case "param":
+		// param(i): the i-th parameter (receiver not counted) of the calling function, whatever it is named there
+		// (scoped requires: ties what a method does to the roles its interface gives the parameters by position)
+		if !argc(1) {
+			return TVal{}
+		}
+		if lit, ok := n.Args[0].(EInt); ok && e.fr != nil {
+			i, _ := strconv.Atoi(lit.V)
+			fn := e.fr.fn
+			if fn.Signature.Recv() != nil {
+				i++
+			}
+			if i < 0 || i >= len(fn.Params) || i >= len(e.fr.params) {
+				return e.errf("param(%s): %s has no such parameter", lit.V, fn.Name())
+			}
+			pv := e.fr.params[i]
+			ty := fn.Params[i].Type()
+			return TVal{T: e.ex.toTerm(e.st, pv, ty), Ty: ty}
+		}
+		return e.errf("param needs an integer literal")
 	case "allocated":
 		// allocated(x): the object x designates exists already (it was not allocated after this point)
 		if !argc(1) {
@@ -854,7 +875,11 @@ func (e *Env) call(n ECall) TVal {
 			if entry == nil || entry.allocTop.S == "" {
 				return e.errf("fresh: no allocation frontier at function entry here")
 			}
-			return TVal{T: Term{app(">", a.T.S, entry.allocTop.S), SBool}}
+			f := app(">", a.T.S, entry.allocTop.S)
+			for _, o := range vc.owned {
+				f = or(f, app("=", a.T.S, o))
+			}
+			return TVal{T: Term{f, SBool}}
 		}
 	case "pristine":
 		// pristine(v): v is an interface holding a pointer; what it points to is the zero value of its type
